@@ -14,7 +14,7 @@ CHECKS = {
         "thorough": {"shards": 16, "checks": 3000},
         "rule": "rapid-generated block histories from the empty accumulator (deletion modes none/all/whole trees/sibling pairs/lone root/climbed/"
                 "all-but-one/one/p=1/8,1/2,7/8; addition modes 0,1,2,3,to 2^k-1,to 2^k,past 2^k,random) applied in lock-step to Stump, Pollard and 2-3 "
-                "MapPollard configurations (full and partial, TotalRows from {0..6,8,16,31,32,33,62,63} or uniform 0..63; half of the partial ones 'direct': Modify without a preceding Verify(remember) when every deleted leaf is already cached; before a third of the blocks a partial forest is asked to Prune a drawn subset of what it remembers) and compared with the "
+                "MapPollard configurations (full and partial, TotalRows from {0..6,8,16,31,32,33,62,63} or uniform 0..63; half of the partial ones 'direct': Modify without a preceding Verify(remember) when every deleted leaf is already cached; before a third of the blocks a partial forest is asked to Prune a drawn subset of what it remembers; before a fifth of the blocks every map forest is handed a block it must REFUSE - 1-3 live leaves followed by a hash that is no leaf - and must stay as it was; in a third of the cases a full or partial map forest JOINS LATE from the bare roots of a drawn block (NewMapPollardFromRoots), learns each block's spent leaves through Verify(remember) and must agree on the roots from then on) and compared with the "
                 "reference model after every block, plus the same survivors re-batched (one-shot / split / re-cut). Non-trivial: some block deletes and "
                 "some block adds and at least one of: a whole tree emptied, an empty root overwritten by additions, TreeRows changes, a leaf at row>=2. "
                 "Distinct by SHA-256 of the case JSON. Sizes: forests up to 96 leaves / 14 blocks, 1 case in 40 up to 640 leaves / 26 blocks / 300 additions per block (thorough: 1100 / 40 / 200, 1 in 8 up to 2600 / 48 / 700, 1 in 48 up to 12000 leaves with blocks of thousands). Before the generated search, deterministic scale probes: a hand-shaped history on 2^9, 2^12 and 2^13 leaves (thorough up to 2^15) with leaves climbing two rows, a half emptied with n/2 targets, climbed leaves deleted together with row-0 twins of the same block, and a power-of-two crossing, on 2 map configurations each.",
@@ -237,7 +237,7 @@ CHECKS["C09"] = {
     "thorough": {"shards": 16, "checks": 10000},
     "rule": "rapid-generated interleavings, on a non-full MapPollard started fresh (TotalRows from {0,1,2,3,4,5,7,63}) or from bare roots of a generated state "
             "(NewMapPollardFromRoots), of: block (Verify(remember) of the deletions, Modify with generated Remember flags), Verify(remember) and Ingest of "
-            "arbitrary live sets with honest proofs (1 call in 12 with EMPTY arguments, 1 in 12 a proof with one wrong hash given to Verify(remember) - refused or not, nothing false may be stored), Prune of subsets of the cache, Undo. The harness tracks the expected remembered set. After EVERY "
+            "arbitrary live sets with honest proofs (1 call in 12 with EMPTY arguments, 1 in 12 a proof with one wrong hash given to Verify(remember) - refused or not, nothing false may be stored), Prune of subsets of the cache, Undo, and Modify calls the forest must REFUSE (remembered leaves followed by a live leaf it does not remember; afterwards the remembered ones are still remembered and provable). The harness tracks the expected remembered set. After EVERY "
             "operation, with the model laid out in TotalRows coordinates: every stored (position,hash) is a true node hash (roots may be zero); the cache "
             "holds exactly the remembered leaves at their true positions; required (roots, remembered leaves, canonical proof positions) is a subset of "
             "stored, which is a subset of allowed (required plus path positions and their siblings); Prove of 6 probe sub-lists equals the canonical proof. Non-trivial: "
@@ -256,7 +256,7 @@ CHECKS["C10"] = {
     "test": "TestC10",
     "quick": {"shards": 8, "checks": 3000},
     "thorough": {"shards": 16, "checks": 3000},
-    "rule": "rapid-generated sequences of block (in a quarter of them 1-2 added leaves re-create a spent leaf: they carry the hash of a leaf deleted in the same or an earlier block that is not live) / undo / Verify(remember) of arbitrary live sets / serialize-and-restore steps on Pollard, a full MapPollard and a "
+    "rule": "rapid-generated sequences of block (in a quarter of them 1-2 added leaves re-create a spent leaf: they carry the hash of a leaf deleted in the same or an earlier block that is not live) / a block every map forest must REFUSE (live leaves followed by a hash that is no leaf) / undo / Verify(remember) of arbitrary live sets / serialize-and-restore steps on Pollard, a full MapPollard and a "
             "partial MapPollard (generated TotalRows); after EVERY step every instance answers: GetLeafPosition and GetLeafHashPositions for every live "
             "tracked leaf, every deleted leaf, every leaf of an undone branch, fresh values, every inner node hash, every root hash and the zero hash; "
             "GetHash for every position in [0, 2^(rows+1)+8] plus {2^32, 2^32+1, 2^62, 2^63, 2^63+5, 2^64-2, 2^64-1}; tracked-leaf counts. Expected answers "
@@ -315,7 +315,7 @@ CHECKS["C14"] = {
             "inserted in 1 of 6 cases); GetMissingPositions(N, A, B) equals need(B\\A) minus (A's proof positions, targets and computable positions), ascending, and the "
             "union proof assembled from A's hashes plus the true hashes at exactly those positions verifies; MapPollard.GetMissingPositions(req) equals the canonical "
             "proof positions absent from the forest's exported node map (and never a position the forest must store), VerifyPartialProof with exactly those hashes "
-            "succeeds (remember off and on, C09 invariant re-checked) and fails when the last one is withheld. Non-trivial: A and B overlap or some target's sibling "
+            "succeeds (remember off and on, C09 invariant re-checked), fails when the last one is withheld, and a wrong-hash call with remember=true in front of it is refused without changing what the forest misses. Non-trivial: A and B overlap or some target's sibling "
             "is also a target, and an input is not position-sorted. Deterministic scale probes: states of 1022 and 3000 (thorough 9000) leaves, 9+ trees, 20 held row-0 targets combined with / completed by 1300 newer ones.",
     "assumptions": COMMON_ASSUME + ["AddProof's result order is not fixed by the statement: targets are compared as a duplicate-free set with parallel hashes",
                                     "'stored' for MapPollard.GetMissingPositions is read from the exported Nodes map and bounded by the model (required positions must never be reported)"],
